@@ -10,6 +10,7 @@ Algebraic part: any field, any finite face / cell index sets, abstract divergenc
 import DarsiaProofs.Saddle
 import DarsiaProofs.SolveLoop
 import DarsiaProofs.WassersteinAux
+import DarsiaProofs.Anderson
 import DarsiaGen.SolveLoopGen
 namespace Darsia.C04
 open Darsia Darsia.SolveLoop
@@ -31,12 +32,12 @@ theorem code_is_sound : ∀ m, (Gen.codeOf m).sound = true := by
 evaluated the criteria to true (which the code does only for `iter > 1`), and every earlier pass completed. -/
 theorem converged_sound (m : Method) (n : Nat) (env : Nat → Event) :
     converged (Gen.codeOf m) n env (run (Gen.codeOf m) n env) = .ok true →
-      ∃ i, i < n ∧ 1 < i ∧ env i = .ok true ∧ (run (Gen.codeOf m) n env).iter = some i ∧
+      ∃ i br, i < n ∧ 1 < i ∧ env i = .ok br true ∧ (run (Gen.codeOf m) n env).iter = some i ∧
         AllOkBefore env i := by
   intro h
   have hs := code_is_sound m
   have hg := good_run hs env n
-  obtain ⟨_, _, h3, _, _⟩ := sound_fields hs
+  obtain ⟨_, _, h3, _, _, _⟩ := sound_fields hs
   unfold converged at h
   rw [h3] at h
   split at h
@@ -52,7 +53,7 @@ theorem distance_is_cost_of_returned_flux (m : Method) (n : Nat) (env : Nat → 
 /-- the status is always defined (also for `num_iter = 0`) -/
 theorem converged_total (m : Method) (n : Nat) (env : Nat → Event) :
     ∃ b, converged (Gen.codeOf m) n env (run (Gen.codeOf m) n env) = .ok b := by
-  obtain ⟨_, _, h3, _, _⟩ := sound_fields (code_is_sound m)
+  obtain ⟨_, _, h3, _, _, _⟩ := sound_fields (code_is_sound m)
   unfold converged
   rw [h3]
   split
@@ -69,12 +70,12 @@ theorem fault_flags_nonconverged (m : Method) (n : Nat) (env : Nat → Event) (j
   | false => exact hb
   | true =>
     exfalso
-    obtain ⟨i, _, hi1, hei, _, hall⟩ := converged_sound m n env hb
+    obtain ⟨i, br, _, hi1, hei, _, hall⟩ := converged_sound m n env hb
     rcases Nat.lt_trichotomy j i with h | h | h
-    · obtain ⟨b, hb'⟩ := hall j h
+    · obtain ⟨br', b, hb'⟩ := hall j h
       rw [hb'] at hf; cases hf
     · subst h; rw [hei] at hf; cases hf
-    · obtain ⟨b, hb', hnb⟩ := hr i h
+    · obtain ⟨br', b, hb', hnb⟩ := hr i h
       rw [hei] at hb'
       cases hb'
       exact hnb ⟨hi1, rfl⟩
@@ -86,10 +87,22 @@ theorem fault_returns_last_valid_iterate (m : Method) (n : Nat) (env : Nat → E
     (run (Gen.codeOf m) n env).solTag = j ∧ (run (Gen.codeOf m) n env).distTag = some j ∧
       (run (Gen.codeOf m) n env).iter = some j := by
   have hs := code_is_sound m
-  obtain ⟨_, _, _, h4, _⟩ := sound_fields hs
+  obtain ⟨_, _, _, h4, _, _⟩ := sound_fields hs
   have := runFrom_fault hs hr hf n 0 (init (Gen.codeOf m)) (by simp [init]) (Nat.zero_le j) (by omega)
     (by simp [init]) (by simp [init, h4]) (by simp [init])
   exact ⟨this.1, this.2.1, this.2.2.1⟩
+
+/-- the order of the statements matters for the obligation `code_is_sound`: a body that evaluates the distance BEFORE its
+last write of the iterate (e.g. `l1_dissipation` before the Anderson mixing), or a handler restoring from an alias of an
+iterate that is updated in place, is not sound — even with all other fields as in the repaired code -/
+theorem order_and_copy_matter :
+    ({ repairedNewton with bodies := [[⟨.linearSolve, .none⟩, ⟨.setSolution, .writeSol⟩, ⟨.distance, .writeDist⟩,
+        ⟨.anderson, .writeSol⟩, ⟨.criteria, .criteria⟩]] } : LoopCode).sound = false ∧
+    ({ repairedNewton with saveIsCopy := false } : LoopCode).sound = false ∧
+    -- and the model then predicts the stale distance / the overwritten iterate:
+    (run { repairedNewton with bodies := [[⟨.linearSolve, .none⟩, ⟨.setSolution, .writeSol⟩, ⟨.distance, .writeDist⟩,
+        ⟨.anderson, .writeSol⟩, ⟨.criteria, .criteria⟩]] } 1 (envOf [.ok 0 false])).distTag = some 0 ∧
+    (run { repairedNewton with saveIsCopy := false } 2 (envOf [.ok 0 false, .fail 0 4])).solTag = 2 := by decide
 
 /-- the program point of the fault is irrelevant for the running code: raising at statement `a` of body `b` or at
 statement `a'` of body `b'` leaves the same state (the as-found code below distinguishes them) -/
@@ -108,8 +121,8 @@ theorem nan_not_converged (m : Method) (n : Nat) (env : Nat → Event) (j : Nat)
 /-- non-vacuity: with `num_iter = 6` and criteria met at pass 3 a sound loop reports convergence with iterate 4; a
 failure of the distance evaluation in pass 1 returns iterate 1, not converged -/
 example : let c := repairedNewton
-    let e1 := envOf [.ok false, .ok false, .ok false, .ok true]
-    let e2 := envOf [.ok false, .fail 0 4]
+    let e1 := envOf [.ok 0 false, .ok 0 false, .ok 0 false, .ok 0 true]
+    let e2 := envOf [.ok 0 false, .fail 0 4]
     c.sound = true ∧ converged c 6 e1 (run c 6 e1) = .ok true ∧ (run c 6 e1).solTag = 4 ∧
       converged c 6 e2 (run c 6 e2) = .ok false ∧ (run c 6 e2).solTag = 1 ∧ (run c 6 e2).distTag = some 1 := by
   decide
@@ -130,11 +143,11 @@ theorem asFound_distance_not_cost :
 previous iterate's distance; the same failure before the update (statement 1) does not — the program point was
 observable -/
 theorem asFound_stale_distance :
-    (run asFoundNewton 5 (envOf [.ok false, .fail 0 4])).distTag = some 1 ∧
-      (run asFoundNewton 5 (envOf [.ok false, .fail 0 4])).solTag = 2 ∧
-      (run asFoundNewton 5 (envOf [.ok false, .fail 0 1])).solTag = 1 ∧
-      converged asFoundNewton 5 (envOf [.ok false, .fail 0 4])
-        (run asFoundNewton 5 (envOf [.ok false, .fail 0 4])) = .ok true := by decide
+    (run asFoundNewton 5 (envOf [.ok 0 false, .fail 0 4])).distTag = some 1 ∧
+      (run asFoundNewton 5 (envOf [.ok 0 false, .fail 0 4])).solTag = 2 ∧
+      (run asFoundNewton 5 (envOf [.ok 0 false, .fail 0 1])).solTag = 1 ∧
+      converged asFoundNewton 5 (envOf [.ok 0 false, .fail 0 4])
+        (run asFoundNewton 5 (envOf [.ok 0 false, .fail 0 4])) = .ok true := by decide
 
 /-- as found: Newton with `num_iter = 0` raised `UnboundLocalError` instead of returning the initial iterate -/
 theorem asFound_newton_zero_iter_raises (env : Nat → Event) :
@@ -176,6 +189,18 @@ theorem anderson_preserves_balance {I : Type*} (s : Finset I) (D : C → F → K
     (ha : ∀ i ∈ s, ∀ c, div D (a i) c = f c) (hb : ∀ i ∈ s, ∀ c, div D (b i) c = f c) :
     ∀ c, div D (fun e => g e - ∑ i ∈ s, (a i e - b i e) * γ i) c = f c :=
   Saddle.anderson_preserves_balance s D f g a b γ hg ha hb
+
+/-- the accelerator AS CODED (`DarsiaModel.Anderson.call`: reset at inner iteration 0, history columns `F[:,col] = fk − fkm1`,
+`G[:,col] = gk − gkm1`, weights from an arbitrary least-squares routine, `xkp1 = gk − G[:, :mk] γ`): over a whole run
+starting at iteration 0, if every image `gk` handed in satisfies a linear constraint `Σ_e a_e v_e = φ` (a row of
+`D u = f`), so does every iterate it returns — whatever the least-squares solve returns (also when it blows up: the
+defect recorded for Anderson is one of floating-point cancellation, not of the algebra). -/
+theorem anderson_run_preserves_balance (n : Nat) (a : Nat → Rat) (φ : Rat) (depth : Nat) (restart : Option Nat)
+    (lstsq : List Anderson.V → Anderson.V → List Rat) (gs fs : Nat → Anderson.V)
+    (hg : ∀ k, Anderson.row n a (gs k) = φ) :
+    ∀ k, Anderson.row n a
+      (Anderson.call depth restart lstsq (Anderson.runSt depth restart lstsq gs fs k) (gs k) (fs k) k).1 = φ :=
+  Anderson.run_preserves n a φ depth restart lstsq gs fs hg
 
 /-- every Bregman iterate's flux is the flux block of a solution of a full system with mass source `f`,
 whatever the weights and the flux right-hand side: balanced -/
